@@ -133,6 +133,7 @@ def check_pair(a_spans, a_rel, b_spans, b_rel, form, u, res):
         return "construction", f"SpanSet({list(b_spans)}, {b_rel}) holds {list(B)}, definition keeps {kb}"
     for x in u:
         n += 1
+        x = (x[0] + 10 ** 6 - 10 ** 6, x[1])       # an equal span, not the identical tuple
         if (x in A) != contains_ref(ka, a_rel, x):
             return "membership", f"{x} in SpanSet({ka}, {a_rel}) -> {x in A}"
     ina = lambda x: contains_ref(ka, a_rel, x)
